@@ -9,6 +9,7 @@ import Driver.Deps
 import Driver.San
 import Driver.Tuple
 import Driver.Conv
+import Driver.Global
 import GooseVerif.Model.Tr
 import GooseVerif.Model.Scope
 import GooseVerif.Model.Core
@@ -55,5 +56,6 @@ def main (args : List String) : IO UInt32 := do
   | ["deps"] => Driver.lineLoop (fun (_ : Unit) ws => ((), Driver.Deps.step ws)) (); return 0
   | ["tuple"] => Driver.lineLoop (fun (_ : Unit) ws => ((), Driver.Tuple.step ws)) (); return 0
   | ["conv"] => Driver.lineLoop (fun (_ : Unit) ws => ((), Driver.Conv.step ws)) (); return 0
+  | ["global"] => Driver.lineLoop (fun (_ : Unit) ws => ((), Driver.Global.step ws)) (); return 0
   | ["wt"] => Driver.lineLoop Driver.Prim.wtStep (); return 0
   | _ => IO.eprintln "usage: driver <enc|prim|wt>"; return 2
